@@ -308,7 +308,7 @@ func runC16(c *fw.Ctx, idx int) fw.Result {
 			lo.width = []int{0, 1000}[r.Intn(2)]
 		}
 		text := layOut(r, recs, lo)
-		ck := []string{"truncate", "shortrec", "longrec", "foreign", "gt-only", "gt-space", "no-leading-gt", "empty", "lone-cr", "huge-line", "dup-header", "nul", "highbit", "only-newlines"}[r.Intn(14)]
+		ck := []string{"truncate", "shortrec", "longrec", "foreign", "gt-only", "gt-space", "no-leading-gt", "empty", "lone-cr", "huge-line", "dup-header", "nul", "highbit", "only-newlines", "empty-first-record", "empty-middle-record"}[r.Intn(16)]
 		mustErr := []bool{false, false, false, false} // per reader: an error is demanded by the property
 		data := []byte(text)
 		at := []int{0, len(recs) / 2, len(recs) - 1}[r.Intn(3)]
@@ -368,6 +368,26 @@ func runC16(c *fw.Ctx, idx int) fw.Result {
 		case "huge-line":
 			big := strings.Repeat("A", 2<<20)
 			data = []byte(">big\n" + big + "\n>second\n" + big + "\n")
+		case "empty-first-record", "empty-middle-record":
+			// a header with an ID but no sequence: its length (0) differs from the other records'
+			if len(recs) >= 2 {
+				rc2 := append([]gen.FastaRec{}, recs...)
+				k := 0
+				if ck == "empty-middle-record" {
+					k = 1 + r.Intn(len(recs)-1)
+					if k == len(recs)-1 && len(recs) > 2 {
+						k--
+					}
+				}
+				if k < len(recs)-1 { // a trailing empty record is an unspecified zone
+					rc2[k].Seq = ""
+					if ck == "empty-first-record" && len(recs) > 2 && r.Chance(0.3) {
+						rc2[1].Seq = ""
+					}
+					mustErr = []bool{true, true, true, true}
+				}
+				data = []byte(layOut(r, rc2, lo))
+			}
 		case "dup-header":
 			rc2 := append([]gen.FastaRec{}, recs...)
 			rc2 = append(rc2, rc2[at])
